@@ -1,4 +1,6 @@
 import ShVerif.Gen.C03
+import ShVerif.Model.C03
+import ShVerif.Props.C01
 /-
   C03 — Formatting never changes what a script does.
   (1) `sem_invariant`: any semantics that factors through the normal form is preserved by a
@@ -6,6 +8,13 @@ import ShVerif.Gen.C03
       C01's `roundtrip` theorem discharges its hypothesis on the proved fragment.
   (2) `interp_ignores_cosmetics`: the interpreter and the expander never read a field that
       formatting is allowed to change (regenerated selector table, decided on every run).
+  (3) `format_preserves_run`: the concrete instance.  Trees = the L4 fragment F0 with the model
+      printer and parser of syntax/ (C01's `roundtrip_partial` is the law), semantics = the L5
+      model of `interp.Runner` on the reading `toL5` of the tree: for every option set, every
+      variant and every F0 tree with non-decreasing line numbers, the formatted text parses to a
+      tree that runs to the same output and exit status, for every fuel.  The composed model is
+      tied to the real parser + interpreter by the `run` stream and the statement itself is
+      executed on both sides by the `specfmt` stream.
 -/
 namespace ShVerif.C03
 open ShVerif.Gen.C03
@@ -59,6 +68,110 @@ def allowed : List (String × String × String) :=
 theorem interp_ignores_cosmetics :
     uses.all (fun (pkg, fn, field, _, _) => allowed.contains (pkg, fn, field)) = true
       ∧ searched.length > 20 := by
+  decide +kernel
+
+/-! ## The concrete instance: L4 printer/parser, L5 interpreter -/
+
+open ShVerif.L4 in
+/-- Pipelines whose round-trip law holds on a domain of trees. -/
+structure PipelineOn (Tree Bytes Opts Err N : Type) where
+  print : Opts → Tree → Except Err Bytes
+  parse : Bytes → Except Err Tree
+  norm : Tree → N
+  dom : Tree → Prop
+  roundtrip : ∀ o t b, dom t → print o t = .ok b → ∃ t', parse b = .ok t' ∧ norm t' = norm t
+
+theorem sem_invariant_on {Tree Bytes Opts Err N β : Type} (P : PipelineOn Tree Bytes Opts Err N)
+    (sem : Tree → β) (hsem : ∀ t t', P.norm t = P.norm t' → sem t = sem t')
+    (o : Opts) (t : Tree) (b : Bytes) (hd : P.dom t) (hp : P.print o t = .ok b) :
+    ∃ t', P.parse b = .ok t' ∧ sem t' = sem t := by
+  obtain ⟨t', h1, h2⟩ := P.roundtrip o t b hd hp
+  exact ⟨t', h1, hsem t' t h2⟩
+
+/-- The model of mvdan/sh's printer and parser on F0 is such a pipeline, in every variant; its
+    law is C01's theorem. -/
+def l4Pipeline (l : L4.Lang) : PipelineOn L4.File ShVerif.Bytes L4.Opts L4.PrintErr L4.NStmts where
+  print := L4.printFile
+  parse := fun b => match L4.parse l b with
+    | .ok f => .ok f
+    | .error _ => .error .panic     -- the error kind is irrelevant here
+  norm := L4.File.norm
+  dom := fun f => f.wf = true ∧ L4.posMono f ∧ f.stmts ≠ .nil
+  roundtrip := by
+    intro o t b ⟨hwf, hmono, hne⟩ hp
+    obtain ⟨f', h1, h2⟩ := ShVerif.Props.C01.roundtrip_partial o l t b hwf hmono hne hp
+    exact ⟨f', by simp [h1], h2⟩
+
+/-- reading a tree as an L5 program depends on its normal form only -/
+theorem toL5_norm (f f' : L4.File) (h : f'.norm = f.norm) : toL5 f' = toL5 f := by
+  unfold toL5; rw [h]
+
+/-- …and the normal form's merging of adjacent literals does not change the field a word stands
+    for: `toL5` reads the tree's words by plain quote removal. -/
+theorem fieldOf_normParts (ps : List L4.WordPart) : fieldOf (L4.normParts ps) = fieldOfParts ps := by
+  induction ps with
+  | nil => rfl
+  | cons p rest ih =>
+    cases p with
+    | sgl l r v => simp [L4.normParts, fieldOf, fieldOfParts, ih]
+    | lit a e v =>
+      simp only [L4.normParts, fieldOfParts]
+      rw [← ih]
+      split
+      · rename_i v' r heq; rw [heq]; simp [fieldOf]
+      · simp [fieldOf]
+
+/-- **Formatting preserves behaviour (fragment F0 ∩ L5)**: for every printer option set `o`, every
+    variant `l` and every well-formed F0 tree with non-decreasing line numbers, the printed text
+    parses again, and the re-parsed program runs — in the model of `interp.Runner` — to the same
+    output and exit status as the original, whatever the fuel. -/
+theorem format_preserves_run (o : L4.Opts) (l : L4.Lang) (f : L4.File) (b : ShVerif.Bytes)
+    (hwf : f.wf = true) (hmono : L4.posMono f) (hne : f.stmts ≠ .nil)
+    (hp : L4.printFile o f = .ok b) :
+    ∃ f', L4.parse l b = .ok f' ∧ ∀ fuel, runL4 fuel f' = runL4 fuel f := by
+  obtain ⟨f', h1, h2⟩ := sem_invariant_on (l4Pipeline l) (fun t => toL5 t)
+    (fun t t' h => toL5_norm t' t h) o f b ⟨hwf, hmono, hne⟩ hp
+  refine ⟨f', ?_, fun fuel => by unfold runL4; rw [h2]⟩
+  simp only [l4Pipeline] at h1
+  split at h1
+  · rename_i g hg; cases h1; exact hg
+  · cases h1
+
+/-- …and unless the option set is the refused one (Minify with SingleLine) there is such a text. -/
+theorem format_preserves_run_total (o : L4.Opts) (hr : L4.refuse o = false) (l : L4.Lang) (f : L4.File)
+    (hwf : f.wf = true) (hmono : L4.posMono f) (hne : f.stmts ≠ .nil) :
+    ∃ b f', L4.printFile o f = .ok b ∧ L4.parse l b = .ok f' ∧ ∀ fuel, runL4 fuel f' = runL4 fuel f := by
+  obtain ⟨b, hb⟩ := ShVerif.Props.C01.print_total o hr f hwf
+  obtain ⟨f', h1, h2⟩ := format_preserves_run o l f b hwf hmono hne hb
+  exact ⟨b, f', hb, h1, h2⟩
+
+/-- In particular the observable behaviour of the *text* is preserved: what `runSrc` reports for
+    the formatted text is what the original tree runs to. -/
+theorem format_preserves_obs (o : L4.Opts) (l : L4.Lang) (f : L4.File) (b : ShVerif.Bytes)
+    (hwf : f.wf = true) (hmono : L4.posMono f) (hne : f.stmts ≠ .nil)
+    (hp : L4.printFile o f = .ok b) (p : L5.Prog) (hin : toL5 f = some p) (fuel : Nat) :
+    runSrc fuel l b = match L5.runFile fuel p with
+      | none => .fuel
+      | some (out, st) => .ran out st := by
+  obtain ⟨f', h1, h2⟩ := sem_invariant_on (l4Pipeline l) (fun t => toL5 t)
+    (fun t t' h => toL5_norm t' t h) o f b ⟨hwf, hmono, hne⟩ hp
+  have hparse : L4.parse l b = .ok f' := by
+    simp only [l4Pipeline] at h1
+    split at h1
+    · rename_i g hg; cases h1; exact hg
+    · cases h1
+  unfold runSrc
+  rw [hparse]; simp only [h2, hin]
+  cases L5.runFile fuel p with
+  | none => rfl
+  | some r => cases r; rfl
+
+/-- non-vacuity, and a pinned run of the composed model: `echo 'a  b'; false || exit 3` prints
+    `a  b` and returns 3; the same after minifying. -/
+example : runSrc 50 .bash (bytesOf "echo 'a  b'; false || exit 3\n")
+    = .ran [97, 32, 32, 98, 10] 3 := by decide +kernel
+
+example : specFormat 50 { minify := true } .bash (bytesOf "echo 'a  b'; ( false ) || exit 3\n") = "same" := by
   decide +kernel
 
 end ShVerif.C03
